@@ -1,7 +1,10 @@
 // Common helpers for the replay harnesses: NDJSON case input on stdin, one NDJSON result per case.
 #pragma once
 #include <nlohmann/json.hpp>
+#include <atomic>
+#include <chrono>
 #include <cstdio>
+#include <thread>
 #include <cstdlib>
 #include <exception>
 #include <iostream>
@@ -40,15 +43,51 @@ inline void emit(const json& j) {
     (void)!::write(1, s.data(), s.size());
 }
 
+// Opt-in watchdog (environment variable VH_CASE_TIMEOUT = seconds): a case that does not finish in time - an endless
+// loop in the code under test - is reported as a failed case ("hang") and the process exits, so that the driver can
+// go on with the remaining cases instead of waiting for its own, much longer, time limit.
+namespace detail {
+inline std::atomic<long long>& case_deadline_ms() { static std::atomic<long long> d{0}; return d; }
+inline std::string& current_case_id() { static std::string s; return s; }
+inline long long now_ms() {
+    return std::chrono::duration_cast<std::chrono::milliseconds>(std::chrono::steady_clock::now().time_since_epoch()).count();
+}
+inline void start_watchdog() {
+    std::thread{[] {
+        for (;;) {
+            std::this_thread::sleep_for(std::chrono::milliseconds(200));
+            const long long d = case_deadline_ms().load();
+            if (d != 0 && now_ms() > d) {
+                json r;
+                r["id"] = json::parse(current_case_id());
+                r["ok"] = false;
+                r["step"] = -1;
+                r["note"] = "hang: the case did not finish within VH_CASE_TIMEOUT seconds (endless loop?)";
+                emit(r);
+                ::_exit(3);
+            }
+        }
+    }}.detach();
+}
+} // namespace detail
+
 // Runs fn(case) for every NDJSON line on stdin.
 template <typename F>
 int run_cases(F&& fn) {
     std::string line;
+    const char* wd = std::getenv("VH_CASE_TIMEOUT");
+    const long long wd_ms = wd ? std::atoll(wd) * 1000 : 0;
+    if (wd_ms > 0) detail::start_watchdog();
     while (std::getline(std::cin, line)) {
         if (line.empty()) continue;
         json c = json::parse(line);
         json r;
         r["id"] = c["id"];
+        if (wd_ms > 0) {
+            detail::case_deadline_ms() = 0;
+            detail::current_case_id() = c["id"].dump();
+            detail::case_deadline_ms() = detail::now_ms() + wd_ms;
+        }
         try {
             fn(c);
             r["ok"] = true;
@@ -63,6 +102,7 @@ int run_cases(F&& fn) {
             r["step"] = -1;
             r["note"] = std::string("unexpected exception: ") + typeid(e).name() + ": " + e.what();
         }
+        if (wd_ms > 0) detail::case_deadline_ms() = 0;
         emit(r);
     }
     return 0;
